@@ -11,6 +11,9 @@ Object is an unordered set of key-value pairs.
 type Object interface {
 	field
 
+	// base acquires the embedded object implementation (also from a derived structure).
+	base() *object
+
 	/*
 		Init initializes the ego pointer, which allows deriving.
 
